@@ -7,6 +7,7 @@ import (
 	"fmt"
 	"os"
 	"os/exec"
+	"strconv"
 	"reflect"
 	"syscall"
 	"time"
@@ -159,9 +160,31 @@ func runSub(spec string, env []string, limit time.Duration) (stdout, stderr []by
 	}
 	done := make(chan error, 1)
 	go func() { done <- cmd.Wait() }()
-	select {
-	case err = <-done:
-	case <-time.After(limit):
+	deadline := time.After(limit)
+	tick := time.NewTicker(5 * time.Second)
+	defer tick.Stop()
+	lastCPU, idle := int64(-1), 0
+	stalled := false
+wait:
+	for {
+		select {
+		case err = <-done:
+			break wait
+		case <-tick.C:
+			// a child that consumes no CPU time at all for 150 s is not slow, it is blocked
+			cpu := procCPUTicks(cmd.Process.Pid)
+			if cpu >= 0 && cpu == lastCPU {
+				idle++
+			} else {
+				idle = 0
+			}
+			lastCPU = cpu
+			if idle < 30 {
+				continue
+			}
+			stalled = true
+		case <-deadline:
+		}
 		hung = true
 		cmd.Process.Signal(syscall.SIGQUIT)
 		select {
@@ -170,6 +193,38 @@ func runSub(spec string, env []string, limit time.Duration) (stdout, stderr []by
 			cmd.Process.Kill()
 			err = <-done
 		}
+		break wait
+	}
+	if stalled {
+		errb.WriteString(subStalledMark)
 	}
 	return out.Bytes(), errb.Bytes(), err, hung
+}
+
+const subStalledMark = "\n[verif] child process stalled: it consumed no CPU time for 150 s (all goroutines blocked)\n"
+
+// subStalled reports whether runSub ended the child because it was blocked (as opposed to slow).
+func subStalled(stderr []byte) bool { return bytes.Contains(stderr, []byte(subStalledMark)) }
+
+// procCPUTicks returns utime+stime of a process in clock ticks, or -1.
+func procCPUTicks(pid int) int64 {
+	b, err := os.ReadFile(fmt.Sprintf("/proc/%d/stat", pid))
+	if err != nil {
+		return -1
+	}
+	// fields after the parenthesised command name
+	i := bytes.LastIndexByte(b, ')')
+	if i < 0 {
+		return -1
+	}
+	f := strings.Fields(string(b[i+1:]))
+	if len(f) < 13 {
+		return -1
+	}
+	ut, e1 := strconv.ParseInt(f[11], 10, 64)
+	st, e2 := strconv.ParseInt(f[12], 10, 64)
+	if e1 != nil || e2 != nil {
+		return -1
+	}
+	return ut + st
 }
